@@ -210,7 +210,23 @@ def rule_SER(FA):
             miss = [x for x in fields if not (x in u1 and x in u2)
                     and not (FA.adts[base]['fields'][fields.index(x)]['tags'][:1] == ['adt:std::marker::PhantomData'])]
             key = 'R-SER|%s|eq compares fields' % base
-            if miss:
+            floor_prefix = None
+            if not eq['derived']:
+                # a hand-written `==` that compares only a prefix of a field whose length is the FLOOR of bits / word size
+                # leaves the last, partially used word out
+                EQ = FA.fn(FA.inlined(eq))
+                for bi, t in EQ.calls():
+                    if t['f']['fn']['name'] in ('index', 'get', 'get_unchecked') and len(t['args']) == 2:
+                        r = norm(EQ.operand_term(t['args'][1]))
+                        if isinstance(r, tuple) and r[:1] == ('agg',) and ('RangeTo' in r[1] or 'ops::Range:' in r[1]) and r[2]:
+                            end = strip_casts(r[2][-1])
+                            if end[:2] == ('bin', 'Shr') and end[3][:1] == ('const',) and any(isinstance(x, tuple) and x[:1] == ('field',) for x in subterms(end[2])) \
+                                    and end[2][:1] != ('bin',):
+                                floor_prefix = (t.get('line', ''), show(end)[:50])
+            if floor_prefix and not miss:
+                out.append(Inst('R-SER', key, 'violation', floor_prefix[0],
+                                '`==` on %s compares only the first `%s` words of a field: the floor of the length drops the last, partially used word, so values that differ there compare equal' % (short, floor_prefix[1]), props))
+            elif miss:
                 out.append(Inst('R-SER', key, 'violation', eq['span'], '`==` on %s ignores field(s) %s' % (short, ', '.join(miss)), props,
                                 sample={'compared': sorted(u1 & u2), 'fields': fields}))
             else:
